@@ -212,9 +212,9 @@ func (c *Ctx) continueAfter(s *State, b *ssa.BasicBlock, after ssa.Instruction, 
 			} else if cond.S == "false" {
 				next = fb
 			} else {
-				if i := strings.Index(cond.S, "opq|"); i >= 0 {
-					s.opqDep = opqName(cond.S[i:])
-				}
+				// (branching on the result of an un-contracted call is not by itself a reason to distrust a
+				// refutation: the rule usually fails whichever way the branch went; a goal that *mentions* such
+				// a result is, see oblige)
 				s2 := s.clone()
 				s2.assume(Not(cond))
 				s.assume(cond)
@@ -1369,11 +1369,20 @@ func (c *Ctx) copyLockCheck(s *State, x *ssa.UnOp, p Sc) {
 
 // opqName extracts the callee name from a symbol "opq|name!N..." (result of a call without contract).
 func opqName(sym string) string {
-	sym = strings.TrimPrefix(sym, "opq|")
+	sym = strings.TrimPrefix(strings.TrimPrefix(sym, "opq|"), "opq!")
 	for i, ch := range sym {
-		if ch == '!' || ch == '|' || ch == ' ' || ch == ')' || ch == '.' && i > 0 && strings.HasPrefix(sym[i:], ".#") {
+		if ch == '!' || ch == '|' || ch == ' ' || ch == '#' || ch == ')' && !strings.Contains(sym[:i], "(") || ch == '.' && i > 0 && i+1 < len(sym) && sym[i+1] >= '0' && sym[i+1] <= '9' {
 			return sym[:i]
 		}
 	}
 	return sym
+}
+
+// opqIndex finds the symbol of an un-contracted call result in a term ("opq|" in the hint; symbol quoting
+// turns the bar into "!").
+func opqIndex(t string) int {
+	if i := strings.Index(t, "opq|"); i >= 0 {
+		return i
+	}
+	return strings.Index(t, "opq!")
 }
